@@ -493,7 +493,8 @@ fn pretty_print_rustfmt(tokens: TokenStream) -> String {
             // Only use the output if the formatter read the program, succeeded, and printed it.
             if written && output.status.success() {
                 if let Ok(formatted) = String::from_utf8(output.stdout) {
-                    if !formatted.trim().is_empty() {
+                    // A formatter that exits early or misbehaves can print anything.
+                    if is_same_program(&tokens, &formatted) {
                         #[cfg(feature = "verif")]
                         verif::sync("fmt.formatted");
                         return formatted;
@@ -505,6 +506,37 @@ fn pretty_print_rustfmt(tokens: TokenStream) -> String {
     #[cfg(feature = "verif")]
     verif::sync("fmt.fallback");
     value.to_string()
+}
+
+// Check that formatted text has the same tokens as the generated code.
+// Formatters are allowed to add or remove a trailing comma before a closing delimiter.
+fn is_same_program(tokens: &TokenStream, formatted: &str) -> bool {
+    fn flatten(stream: TokenStream, flattened: &mut Vec<String>) {
+        let trees: Vec<_> = stream.into_iter().collect();
+        let count = trees.len();
+        for (i, tree) in trees.into_iter().enumerate() {
+            match tree {
+                proc_macro2::TokenTree::Group(group) => {
+                    flattened.push(format!("{:?}(", group.delimiter()));
+                    flatten(group.stream(), flattened);
+                    flattened.push(")".to_string());
+                }
+                proc_macro2::TokenTree::Punct(p) if p.as_char() == ',' && i + 1 == count => (),
+                other => flattened.push(other.to_string()),
+            }
+        }
+    }
+
+    match formatted.parse::<TokenStream>() {
+        Ok(formatted) => {
+            let mut expected = Vec::new();
+            flatten(tokens.clone(), &mut expected);
+            let mut actual = Vec::new();
+            flatten(formatted, &mut actual);
+            expected == actual
+        }
+        Err(_) => false,
+    }
 }
 
 fn indexed_name_to_ident(name: &str, index: u32) -> Ident {
